@@ -24,7 +24,6 @@ path = "{KANI_SRC}/src/lib.rs"
 
 [dependencies]
 pest = {{ path = "{REPO}/pest"{feats} }}
-pest_meta = {{ path = "{REPO}/meta" }}
 
 [features]
 nomemchr = []
@@ -57,6 +56,8 @@ def _parse(out):
         only_unwind = r["failed_checks"] and all("unwinding assertion" in x for x in r["failed_checks"])
         if "out of memory" in out.lower() or "Status: ERROR" in out or "std::bad_alloc" in out:
             r["status"] = "inconclusive"; r["why"] = "out of memory / CBMC error"
+        elif any("not currently supported by Kani" in x for x in r["failed_checks"]):
+            r["status"] = "inconclusive"; r["why"] = "construct unsupported by Kani: " + "; ".join(r["failed_checks"])[:300]
         elif only_unwind:
             r["status"] = "inconclusive"; r["why"] = "unwinding bound too small: " + "; ".join(r["failed_checks"])
         elif not r["failed_checks"] and r["failed"] == 0:
@@ -139,7 +140,7 @@ def playback(ctx, harness, variant, stubbing=False, cfg_hooks=False, timeout=180
 
 def run_harnesses(ctx, jobs, parallel=None, timeout=1500):
     """jobs: list of dicts {harness, variant?, stubbing?, hooks?, timeout?}. Returns list of results."""
-    parallel = parallel or min(NCPU, max(1, len(jobs)))
+    parallel = parallel or min(int(os.environ.get("VERIF_KANI_PAR", "8")), max(1, len(jobs)))
     # slot directories: one target dir per worker so cargo never blocks on the build lock
     slots = [os.path.join(WORK, f"kani-slot-{i}") for i in range(parallel)]
     # warm slot 0 then clone it, so the dependency build is paid once
